@@ -19,7 +19,7 @@ func init() {
 
 func runC09(c *core.Ctx) {
 	runFixtures(c, "valid", "drop")
-	c.Explain("Structural clauses of C09 decided from source on linux, windows and darwin builds of package hackpadfs/os: (R09.1) every call to a path-taking function of the standard os package receives, as each path operand, the first result of the name→OS-path mapping (rootedPath/toOSPath), at a point dominated by that call's nil-error edge — no raw name reaches the kernel; (R09.2) the mapping validates before it joins and joins path.Join(\"/\", root, name) in that order, so the result is root-prefixed; (R09.3) every non-error return of the reverse mapping returns the constant \".\" or a value tested by ValidPath on the way; (R09.4) the root-prefix test of the reverse mapping respects element boundaries (root+\"/\" or equality); (R09.5) every error produced by a standard os function or *os.File method leaves package os only through the translator that rewrites OS paths into FS-relative names; (R09.6) the exported reverse mapping refuses non-absolute paths before converting. NOT claimed: ToOSPath∘FromOSPath = id (string arithmetic), volume handling on real Windows paths beyond these shapes.")
+	c.Explain("Structural clauses of C09 decided from source on linux, windows and darwin builds of package hackpadfs/os: (R09.1) every call to a path-taking function of the standard os package receives, as each path operand, the first result of the name→OS-path mapping (rootedPath/toOSPath), at a point dominated by that call's nil-error edge — no raw name reaches the kernel; (R09.2) the mapping validates before it joins and joins path.Join(\"/\", root, name) in that order, so the result is root-prefixed; (R09.3) every non-error return of the reverse mapping returns the constant \".\" or a value tested by ValidPath on the way; (R09.4) the root-prefix test of the reverse mapping respects element boundaries (root+\"/\" or equality); (R09.5) every error produced by a standard os function or *os.File method leaves package os only through the translator that rewrites OS paths into FS-relative names; (R09.6) the exported reverse mapping refuses non-absolute paths before converting; (R09.7) no strings.Replace/ReplaceAll in package os deletes (replaces by the empty string) a non-constant pattern — the root's OS path is taken off a reported path with TrimPrefix only, so a name that contains the root's text again further down ('backup/data/x' under root 'data') is reported intact. NOT claimed: ToOSPath∘FromOSPath = id (string arithmetic), volume handling on real Windows paths beyond these shapes.")
 	c.Assume("A2: standard os/path/filepath functions behave as documented")
 	c.RuleDoc("R09.1", "only mapped paths reach standard os calls, on the mapping's success edge")
 	c.RuleDoc("R09.2", "mapping = validate, then path.Join(\"/\", root, name)")
@@ -27,6 +27,7 @@ func runC09(c *core.Ctx) {
 	c.RuleDoc("R09.4", "root prefix test respects element boundaries")
 	c.RuleDoc("R09.5", "standard os errors pass through the translator")
 	c.RuleDoc("R09.6", "FromOSPath requires an absolute path")
+	c.RuleDoc("R09.7", "roots and volume names are removed from a path only as a prefix")
 	for _, p := range c.Progs {
 		c.SetProg(p)
 		if p.SSAPkg("os") == nil {
@@ -44,6 +45,7 @@ func runC09(c *core.Ctx) {
 		r09MappingShape(c, p, mapper)
 		r09Reverse(c, p, rev)
 		r09Errors(c, p)
+		r09PrefixOnly(c, p)
 		r09Abs(c, p, rev)
 		for _, v := range prefixTests(p, rev) {
 			c.Check(v.ok, "R09.4", "os.fromOSPath|"+v.key, v.pos, v.msg, v.msg)
@@ -55,6 +57,7 @@ func runC09(c *core.Ctx) {
 	c.Floor("R09.4", 1)
 	c.Floor("R09.5", 30)
 	c.Floor("R09.6", 1)
+	c.Floor("R09.7", 1)
 }
 
 func isStdOSFunc(fn *ssa.Function) bool {
@@ -412,5 +415,25 @@ func boundaryTests(c *core.Ctx, p *load.Program, rule string, pkgs ...string) {
 				c.Check(v.ok, rule, fname(fn)+"|"+v.key, v.pos, v.msg, v.msg)
 			}
 		}
+	}
+}
+
+
+// r09PrefixOnly (R09.7)
+func r09PrefixOnly(c *core.Ctx, p *load.Program) {
+	for _, fn := range pkgFuncs(p, "os") {
+		ord := ordinals{}
+		ssax.Instrs(fn, func(ins ssa.Instruction) {
+			cl, ok := ins.(*ssa.Call)
+			if !ok || (!ssax.CalleeIs(cl, "strings", "ReplaceAll") && !ssax.CalleeIs(cl, "strings", "Replace")) {
+				return
+			}
+			key := fname(fn) + "|" + ord.next("replace")
+			_, patConst := ssax.ConstString(cl.Call.Args[1])
+			repl, replConst := ssax.ConstString(cl.Call.Args[2])
+			bad := !patConst && replConst && repl == ""
+			c.Check(!bad, "R09.7", key, p.Pos(cl.Pos()), "replaces one separator convention by the other (constants), deletes nothing",
+				fmt.Sprintf("%s deletes every occurrence of the non-constant pattern %s from a path: a root or volume name may only be taken off the front (strings.TrimPrefix) — a name that contains the root's OS path again further down is reported with that part missing", fname(fn), vname(cl.Call.Args[1])))
+		})
 	}
 }
